@@ -11,6 +11,7 @@ import (
 	"fmt"
 	"math"
 	"sort"
+	"strings"
 	"testing"
 	"time"
 
@@ -288,8 +289,24 @@ func runNodeCase(t *testing.T, c c06NodeCase) (sig, msg string) {
 					settle()
 				}
 			}
-		} else {
+		} else if c.Start == "third" {
 			o.M.VSuspectNode(&ml.VSuspect{Incarnation: 1, Node: "x", From: "t"})
+		} else {
+			// hearsay in a push/pull list: the node starts suspecting on its own account. The list may
+			// carry other suspect/dead entries before or after x's (each gets its own, independent timer).
+			ent := func(name string, ip byte, st ml.NodeStateType) ml.VPushNodeState {
+				return ml.VPushNodeState{Name: name, Addr: ip4(ip), Port: 7946, Incarnation: 1, State: st, Vsn: defaultVsn}
+			}
+			switch c.Start {
+			case "pp":
+				o.M.VMergeState([]ml.VPushNodeState{ent("x", 2, ml.StateSuspect)})
+			case "pp-first":
+				o.M.VMergeState([]ml.VPushNodeState{ent("x", 2, ml.StateSuspect), ent("q0", 10, ml.StateSuspect)})
+			case "pp-last":
+				o.M.VMergeState([]ml.VPushNodeState{ent("q0", 10, ml.StateDead), ent("x", 2, ml.StateDead)})
+			case "pp-middle":
+				o.M.VMergeState([]ml.VPushNodeState{ent("q0", 10, ml.StateSuspect), ent("x", 2, ml.StateSuspect), ent("q1", 11, ml.StateDead)})
+			}
 		}
 		settle()
 		r := findRec(o.M.VSnapshot(), "x")
@@ -497,7 +514,10 @@ func TestC06(t *testing.T) {
 	}
 	interval := time.Second
 	for _, cf := range cfgs {
-		for _, startMode := range []string{"probe", "third"} {
+		for _, startMode := range []string{"probe", "third", "pp", "pp-first", "pp-last", "pp-middle"} {
+			if (startMode == "pp-first" || startMode == "pp-last") && cf.n < 3 || startMode == "pp-middle" && cf.n < 4 {
+				continue // these lists name other members of o's list
+			}
 			base := c06NodeCase{N: cf.n, Mult: cf.mult, MaxMult: cf.maxm, Start: startMode}
 			e0 := refNodeCase(base, interval)
 			k := cf.mult - 2
@@ -526,6 +546,12 @@ func TestC06(t *testing.T) {
 			ln := 2
 			if thorough() || (cf.n >= 4 && cf.mult == 4 && cf.maxm == 6) {
 				ln = 3
+			}
+			if strings.HasPrefix(startMode, "pp") {
+				ln = 1
+				if thorough() {
+					ln = 2
+				}
 			}
 			var rec func(seq []nev, from int)
 			rec = func(seq []nev, from int) {
